@@ -16,23 +16,24 @@ UNIT = {
         (MAIN, ['impl Variable', 'fn is_read_only'], {'ret': 'b', 'ensures': ['b == self.read_only_location is Some']}),
         (MAIN, ['struct VariableRefMut'], {'drop_derives': True}),
         (MAIN, ['struct AssignError']),
+        ('@raw', "impl VariableRefMut<'_> { pub closed spec fn var(&self) -> Variable { *self.0 } }\n"),
         (MAIN, ["impl VariableRefMut<'_>", 'fn assign_impl'], {'ret': 'r', 'ensures': [
             # a read-only variable is never modified
-            'old(self).0.read_only_location is Some ==> r is Err && *final(self).0 == *old(self).0',
-            'old(self).0.read_only_location is Some ==> r->Err_0.new_value == value && r->Err_0.assigned_location == location && Some(r->Err_0.read_only_location) == old(self).0.read_only_location',
+            'old(self).var().read_only_location is Some ==> r is Err && final(self).var() == old(self).var()',
+            'old(self).var().read_only_location is Some ==> r->Err_0.new_value == value && r->Err_0.assigned_location == location && Some(r->Err_0.read_only_location) == old(self).var().read_only_location',
             # otherwise the value and the assignment location are replaced, the old ones returned, nothing else touched
-            'old(self).0.read_only_location is None ==> r == Ok::<(Option<Value>, Option<Location>), AssignError>((old(self).0.value, old(self).0.last_assigned_location))',
-            'old(self).0.read_only_location is None ==> final(self).0.value == Some(value) && final(self).0.last_assigned_location == location && attrs_same(*old(self).0, *final(self).0)',
+            'old(self).var().read_only_location is None ==> r == Ok::<(Option<Value>, Option<Location>), AssignError>((old(self).var().value, old(self).var().last_assigned_location))',
+            'old(self).var().read_only_location is None ==> final(self).var().value == Some(value) && final(self).var().last_assigned_location == location && attrs_same(old(self).var(), final(self).var())',
         ]}),
         (MAIN, ["impl VariableRefMut<'_>", 'fn export'], {'ensures': [
-            'final(self).0.is_exported == is_exported',
-            'final(self).0.value == old(self).0.value && final(self).0.read_only_location == old(self).0.read_only_location && final(self).0.last_assigned_location == old(self).0.last_assigned_location && final(self).0.quirk == old(self).0.quirk',
+            'final(self).var().is_exported == is_exported',
+            'final(self).var().value == old(self).var().value && final(self).var().read_only_location == old(self).var().read_only_location && final(self).var().last_assigned_location == old(self).var().last_assigned_location && final(self).var().quirk == old(self).var().quirk',
         ]}),
         (MAIN, ["impl VariableRefMut<'_>", 'fn make_read_only'], {'ensures': [
             # once read-only, always read-only, with the first location kept
-            'old(self).0.read_only_location is Some ==> *final(self).0 == *old(self).0',
-            'old(self).0.read_only_location is None ==> final(self).0.read_only_location == Some(location)',
-            'final(self).0.value == old(self).0.value && final(self).0.is_exported == old(self).0.is_exported && final(self).0.last_assigned_location == old(self).0.last_assigned_location && final(self).0.quirk == old(self).0.quirk',
+            'old(self).var().read_only_location is Some ==> final(self).var() == old(self).var()',
+            'old(self).var().read_only_location is None ==> final(self).var().read_only_location == Some(location)',
+            'final(self).var().value == old(self).var().value && final(self).var().is_exported == old(self).var().is_exported && final(self).var().last_assigned_location == old(self).var().last_assigned_location && final(self).var().quirk == old(self).var().quirk',
         ]}),
         ('@raw', '}\n'),
     ],
